@@ -263,8 +263,13 @@ theorem spacedFrom_spacedAfter {gap lo : Int} : ∀ {l : List (Int × Bool)}, Sp
 /-- **Lookup spacing (partial: D13).**  Once the loop has made its first QM request (`first = false`,
 `delay = 999` — after the second request in general, after the first when QM is forced), every further request is
 QM and at least 1019 ms ≥ 1 s after the previous one, whatever wakes the loop up (own timer or arriving records),
-provided every jitter draw is ≥ 20 ms.  Missing for the full clause: the gap between the second and the third
-request (the signature of finding D13). -/
+provided every jitter draw is ≥ 20 ms.  Missing for the full clause: the **whole** gap between the second and the third *generated*
+request — the theorem is silent about every third request, which is generated 200 ms + jitter after the second whenever the lookup is not
+forced to QM (`C13_lookup_spacing_refuted`).  Finding D13 is the part of that region that reaches the wire: a third request that is **not a
+duplicate** of the second.  A duplicate third request is generated just as early but is silent: each question the second request
+transmitted is dropped from the third unless its known-answer list shrank — `C13_lookup_repeat_suppressed` (`Props/C13Run.lean`), per
+question; the composition of `Loop.asks` with `requestQuery` over whole requests is not proved, the oracle separates the two cases on the
+decoded datagrams. -/
 theorem C13_lookup_spacing_partial (forced : Option Bool) (es : List (Int × Nat)) (l : Loop)
     (hf : l.first = false) (hd : l.delay = 999) (hdr : ∀ e ∈ es, 20 ≤ e.2) :
     C13.SpacedAfter 1000 0 (Loop.asks forced l es) ∧ (∀ a ∈ Loop.asks forced l es, a.2 = false) ∧
